@@ -24,6 +24,7 @@ ATOMS: List[A.Atom] = [
     ["global GroupSize", "int 2", "=="],
     ["txn TypeEnum", "int pay", "=="],
     ["txn OnCompletion", "int 4", "!="],
+    ["int NoOp", "txn OnCompletion", "=="],
     ["txn GroupIndex", "int 1", "<"],
     ["int 272000", "txn Fee", ">="],
     ["txn TypeEnum", "int 6", "=="],
@@ -34,7 +35,7 @@ ATOMS: List[A.Atom] = [
 def items(tier: str) -> List[Any]:
     out: List[Any] = []
     sizes = (1, 2) if tier == "quick" else (1, 2, 3)
-    alpha = ATOMS[:7] if tier == "quick" else ATOMS
+    alpha = ATOMS[:8] if tier == "quick" else ATOMS
     for nsubs in (0, 1, 2):
         o = core.Opts(cond_level=0, nsubs=nsubs, kinds=("assert", "ret", "ret1", "err", "if", "while", "call"))
         for size in sizes if nsubs < 2 else (2, 3):
@@ -47,7 +48,7 @@ def items(tier: str) -> List[Any]:
                     # one tracked atom per slot position, the others free; plus two fixed mixed fillings
                     fills = []
                     for j in range(k):
-                        for a in (1, 2, 4, 5) if tier == "quick" else range(1, len(alpha)):
+                        for a in (1, 2, 4, 5, 6) if tier == "quick" else range(1, len(alpha)):
                             fills.append([a if i == j else 0 for i in range(k)])
                     fills.append([(i % (len(alpha) - 1)) + 1 for i in range(k)])
                 for f in fills:
